@@ -15,6 +15,7 @@ func init() {
 			rulePrecedenceTable(r)
 			ruleParseBinOp(r)
 			ruleParens(r)
+			ruleBinOpPairsMatched(r) // what a parenthesised operand evaluates to: an empty operand yields no pairs
 		},
 	})
 }
